@@ -1,4 +1,4 @@
-import CedarVerif.Lemmas.BatchedProgress
+import CedarVerif.Lemmas.BatchedUids
 import CedarVerif.Lemmas.TpeViews
 /-
 C15 — batched (loader-driven) authorization equals ordinary authorization.  Property theorems only
@@ -16,7 +16,11 @@ class), WITHOUT any hypothesis about the states of the loop; what remains are th
 typed condition evaluates like the policy condition), and for `enough_budget_sound` also `CondsBool` (conditions are
 boolean-valued).  `enough_budget_sound`: progress (`interpret_partial_unloaded`: a `Partial` residual under a concrete
 request and fully known entities mentions an unloaded id) and Bool-typedness of the residuals are now PROVED; the only
-remaining hypothesis about the loop is boundedness `hU` (the ids requested stay inside the universe `U`).
+remaining hypothesis about the loop is boundedness `hU` (the ids requested stay inside the universe `U`) — and
+`enough_budget_full` PROVES that too (`interpret_uidsIn`: ids of an interpreted residual are ids of the input, of the
+request, or of loaded attribute / tag values), from `Universe U q es tps`: a checkable condition on the INPUT (`U` holds
+the ids of the request, of the typed conditions and of the attribute / tag values of the store).  `LoopInv` and
+`SoundStates` no longer occur as hypotheses of the main theorems.
 The older `batched_decision_sound_partial` / `enough_budget` (under the abstract `SoundStates` / `LoopInv`) are kept: the
 new theorems instantiate them with the concrete invariant `SInv`.
 -/
@@ -159,6 +163,21 @@ theorem enough_budget_sound (loader : Loader) (q : Request) (es : Entities) (tps
   obtain ⟨d, hd⟩ := enough_budget loader q tps U (SInv q es tps) (sinv_loopInv hF hE hB hU) hok hl st0 h0 (sinv_init hT h0) b hb
   rw [hd, batched_decision_sound loader q es tps hF hT hE b d hd]
 
+/-- **enough_budget_full**: NO hypothesis about the loop.  If `U` contains the ids of the request, of the typed conditions
+and of the attribute / tag values of the store (`Universe`), then every budget larger than `|U|` yields a decision — the
+decision of ordinary authorization — for every faithful, complete loader whose rounds do not fail (`StepOk`: see the known
+finding about repeating loaders).  Remaining hypotheses are about the input: `TypedSafe`, `TypedAgrees`, `CondsBool`
+(validation), and that `policy_residual_map` succeeds (`h0`: no slot / unknown in a policy). -/
+theorem enough_budget_full (loader : Loader) (q : Request) (es : Entities) (tps : List TPolicy) (U : List EntityUID)
+    (hF : Faithful loader es) (hok : StepOk (prequestOf q) loader) (hl : Complete loader)
+    (hT : TypedSafe q es tps) (hE : TypedAgrees q es tps) (hB : CondsBool q es tps) (hU : Universe U q es tps)
+    (st0 : State) (h0 : initState (prequestOf q) tps = some st0)
+    (b : Nat) (hb : U.length < b) :
+    run b loader q tps = .ok (Cedar.isAuthorized q es (tps.map (·.policy))).decision := by
+  obtain ⟨d, hd⟩ := enough_budget loader q tps U (SInvU q es tps U) (sinvU_loopInv hF hE hB hU) hok hl st0 h0
+    (sinvU_init hT hU h0) b hb
+  rw [hd, batched_decision_sound loader q es tps hF hT hE b d hd]
+
 /-- the store loader is faithful -/
 theorem storeLoader_faithful (es : Entities) : Faithful (storeLoader es) es := by
   intro ids u d hm
@@ -196,13 +215,36 @@ example :
     let q : Request := ⟨⟨"User", "a"⟩, ⟨"Action", "view"⟩, ⟨"Doc", "d"⟩, []⟩
     let cond : Expr := .and (.hasAttr (.var .principal) "manager") (.like (.getAttr (.getAttr (.var .principal) "manager") "name") [.star])
     let tps : List TPolicy := [⟨⟨"p0", .permit, cond, []⟩, cond⟩]
-    Faithful (storeLoader es) es ∧ TypedSafe q es tps ∧ TypedAgrees q es tps ∧ CondsBool q es tps := by
+    Faithful (storeLoader es) es ∧ TypedSafe q es tps ∧ TypedAgrees q es tps ∧ CondsBool q es tps ∧
+    Universe [⟨"User", "a"⟩, ⟨"Action", "view"⟩, ⟨"Doc", "d"⟩, ⟨"User", "b"⟩] q es tps := by
   intro user es q cond tps
   let l : Residual := .part (.hasAttr (.part (.var .principal) "") "manager") ""
   let r : Residual := .part (.like (.part (.getAttr (.part (.getAttr (.part (.var .principal) "") "manager") "") "name") "") [.star]) ""
   have hl : l.eval q es = .ok (.prim (.bool true)) := by rfl
   have hr : r.eval q es = .ok (.prim (.bool true)) := by rfl
-  refine ⟨storeLoader_faithful es, ?_, ?_, ?_⟩
+  refine ⟨storeLoader_faithful es, ?_, ?_, ?_, ?_⟩
+  rotate_left 3
+  · refine ⟨⟨?_, by decide, ?_, ?_⟩, ?_, ?_⟩
+    · intro u hu; cases hu; decide
+    · intro u hu; cases hu; decide
+    · intro c hc; cases hc; intro x hx; cases hx
+    · intro u d hf
+      simp only [es, Entities.find?] at hf
+      split at hf
+      · cases hf
+        refine ⟨?_, fun x hx => by cases hx⟩
+        intro x hx
+        simp only [user, List.cons_append, List.nil_append, valueUidsKVs, valueUids, List.append_nil, List.mem_singleton] at hx
+        subst hx; decide
+      · split at hf
+        · cases hf
+          exact ⟨fun x hx => by simp [user, valueUidsKVs, valueUids] at hx, fun x hx => by cases hx⟩
+        · cases hf
+    · intro tp htp r0 h0
+      simp only [tps, List.mem_singleton] at htp; subst htp
+      have h1 : Residual.ofExpr cond = some (.part (.and l r) "") := by rfl
+      rw [h1] at h0; cases h0
+      exact uidsIn_nil rfl
   · intro tp htp r0 h0
     simp only [tps, List.mem_singleton] at htp; subst htp
     have h1 : Residual.ofExpr cond = some (.part (.and l r) "") := by rfl
